@@ -16,7 +16,7 @@ import (
 // ---------------------------------------------------------------------------------------
 
 func structRoot(kind string, m map[string]VD) RootD {
-	return RootD{Kind: kind, Map: m, Plain: "P", Tagged: 7, Hidden: "H", List: []int{4, 5}, SubA: "a", Short: "short-id", Long: "LONG-ID", Token: "t0k3n", Dash: "dash-value"}
+	return RootD{Kind: kind, Map: m, Plain: "P", Tagged: 7, Hidden: "H", List: []int{4, 5}, SubA: "a", Short: "short-id", Long: "LONG-ID", Token: "t0k3n", Dash: "dash-value", Type: "legacy-type", KindF: "real-kind"}
 }
 
 // enumRoots: nil, map, struct, pointer to struct, struct whose field is shadowed by the root map,
@@ -96,7 +96,7 @@ func preludeAlphabet(pos int) []Op {
 }
 
 func zooNode(name string, rich bool) VD {
-	m := map[string]VD{"Name": vStr(name), "Title": vStr("t-" + name), "hidden": vStr("h-" + name), "Short": vStr("short-" + name), "Long": vStr("LONG-" + name)}
+	m := map[string]VD{"Name": vStr(name), "Title": vStr("t-" + name), "hidden": vStr("h-" + name), "Short": vStr("short-" + name), "Long": vStr("LONG-" + name), "Type": vStr("type-" + name), "Kind": vStr("kind-" + name)}
 	if rich {
 		m["Count"] = vInt(3)
 		m["Any"] = vMap("mapss", map[string]VD{"k": vStr("s")})
@@ -233,7 +233,7 @@ func enumPaths(rec *ev.Rec, known *kf.File, maxDepth, shard, shards int) (int, b
 	avoid := avoider(rec, known)
 	emit := func(z VD, steps []Step) bool {
 		bs := binds
-		if len(steps) > 2 {
+		if len(steps) > 1 {
 			bs = []string{binds[n%len(binds)]}
 		}
 		for _, b := range bs {
@@ -351,6 +351,10 @@ func (g genCtx) node(t *rapid.T, depth int) VD {
 	if opt("ids") {
 		m["Short"] = vStr("short-id")
 		m["Long"] = vStr("LONG-ID")
+	}
+	if opt("kinds") {
+		m["Type"] = vStr("legacy-type")
+		m["Kind"] = vStr("real-kind")
 	}
 	if opt("Count") {
 		m["Count"] = vInt(rapid.IntRange(0, 5).Draw(t, "Count"))
@@ -697,6 +701,10 @@ func genSeq(t *rapid.T, rec *ev.Rec, known *kf.File) SeqCase {
 		c.EnvSkip = []string{"Tagged", "Sub"}
 		rec.Excluded(kfGoName)
 	}
+	if known.Open(kfTagOverName) && (root.Kind == "struct" || root.Kind == "ptr") {
+		c.EnvSkip = append(c.EnvSkip, "Kind")
+		rec.Excluded(kfTagOverName)
+	}
 	if root.Data != nil && root.Data.K == "eroot" {
 		c.Names = append(eNames(known.Open(kfPromotedTag)), "y", "Plain", "ID")
 		if known.Open(kfPromotedTag) {
@@ -705,6 +713,10 @@ func genSeq(t *rapid.T, rec *ev.Rec, known *kf.File) SeqCase {
 		if known.Open(kfPromotedEnv) {
 			c.EnvSkip = ePromoted
 			rec.Excluded(kfPromotedEnv)
+		}
+		if known.Open(kfTagOverName) {
+			c.EnvSkip = append(append([]string(nil), c.EnvSkip...), "Code")
+			rec.Excluded(kfTagOverName)
 		}
 	} else if root.Kind == "data" && known.Open(kfMapRoot) {
 		c.EnvSkip = bigUniverse
